@@ -2,6 +2,7 @@
 from __future__ import annotations
 
 import contextvars
+import itertools
 import json
 import random
 import sys
@@ -254,6 +255,7 @@ class SpyEvent:
     t_done: float | None = None
     who: str = ""
     caller: str = ""
+    seq: int = 0
 
     @property
     def key(self) -> Any:
@@ -264,6 +266,7 @@ class Spy:
     def __init__(self, loop: vclock.VLoop) -> None:
         self.loop = loop
         self.events: list[SpyEvent] = []
+        self.seq = itertools.count(1)  # shared order counter (scripted actor callbacks draw from it too)
         self.faults: dict[str, Callable[[SpyEvent], BaseException | None]] = {}
 
     def attach(self, broker: Any, ops: tuple, who: str = "") -> None:
@@ -279,7 +282,7 @@ class Spy:
             if d > 0:
                 return await inner(*args, **kwargs)
             ev = SpyEvent(op, spy.loop.time(), spy.loop.steps, args, kwargs, who=who,
-                          caller=sys._getframe(1).f_code.co_name)
+                          caller=sys._getframe(1).f_code.co_name, seq=next(spy.seq))
             spy.events.append(ev)
             fault = spy.faults.get(op)
             if fault is not None:
